@@ -13,9 +13,23 @@
 #include <set>
 #include <string>
 #include <vector>
+#include <sys/select.h>
+#include <algorithm>
+#include <memory>
+#include <queue>
+#include <set>
+#include <sstream>
+#include <iostream>
 #include "ola/Callback.h"
-#include "ola/Logging.h"
+#include "ola/Clock.h"
+#include "ola/ExportMap.h"
+#include "ola/io/Descriptor.h"
+#include "ola/thread/Mutex.h"
+#define private public
 #include "ola/io/SelectServer.h"
+#undef private
+#include "ola/thread/ThreadPool.h"
+#include "ola/Logging.h"
 #include "ola/thread/ExecutorThread.h"
 #include "ola/thread/Future.h"
 #include "ola/thread/PeriodicThread.h"
@@ -37,16 +51,18 @@ int __real_pthread_cond_signal(pthread_cond_t *c);
 int __real_pthread_cond_broadcast(pthread_cond_t *c);
 int __real_pthread_create(pthread_t *t, const pthread_attr_t *a, void *(*fn)(void *), void *arg);
 int __real_pthread_join(pthread_t t, void **ret);
+int __real_select(int n, fd_set *r, fd_set *w, fd_set *e, struct timeval *tv);
 }
 
 namespace sch {
 enum Op { OP_NONE, OP_BEGIN, OP_LOCK, OP_UNLOCK, OP_WAIT, OP_RELOCK, OP_SIGNAL, OP_BCAST, OP_CREATE, OP_JOIN,
-          OP_YIELD, OP_TWAIT };
+          OP_YIELD, OP_TWAIT, OP_POLL };
 enum St { ST_PARKED, ST_ASLEEP, ST_DONE };
 struct Th {
   int id; sem_t sem; Op op; const void *a; const void *b; St st;
   pthread_t real; void *(*fn)(void *); void *arg; int join_target;
   bool timed; bool timedout;
+  int nfds; fd_set *rf; fd_set *wf;
 };
 static bool active = false;
 static std::vector<Th*> ths;
@@ -61,6 +77,16 @@ static unsigned steps = 0;
 static int last_run = 0;
 static std::string trace, ran, outs, outcome;
 static int result_fd = -1;
+static ola::io::SelectServer *g_ss = NULL;
+
+// is any descriptor of a parked select() ready right now?
+static bool poll_ready(int nfds, fd_set *rf, fd_set *wf) {
+  fd_set r, w; FD_ZERO(&r); FD_ZERO(&w);
+  if (rf) r = *rf;
+  if (wf) w = *wf;
+  struct timeval tv = {0, 0};
+  return __real_select(nfds, rf ? &r : NULL, wf ? &w : NULL, NULL, &tv) > 0;
+}
 
 static std::string nm(std::map<const void*, std::string> *tbl, const char *pre, const void *p) {
   std::map<const void*, std::string>::iterator it = tbl->find(p);
@@ -86,6 +112,7 @@ static bool can_run(Th *t) {
     case OP_RELOCK: return owner.find(t->a) == owner.end();
     case OP_JOIN: return t->join_target >= 0 && ths[t->join_target]->st == ST_DONE;
     case OP_NONE: return false;
+    case OP_POLL: return poll_ready(t->nfds, t->rf, t->wf);
     default: return true;
   }
 }
@@ -114,11 +141,18 @@ static void dispatch() {
     for (size_t i = 0; i < ths.size(); i++) {
       if (can_run(ths[i])) en1.push_back(ths[i]);
       if (ths[i]->st == ST_ASLEEP && ths[i]->timed) en2.push_back(ths[i]);
+      if (ths[i]->st == ST_PARKED && ths[i]->op == OP_POLL && !poll_ready(ths[i]->nfds, ths[i]->rf, ths[i]->wf))
+        en2.push_back(ths[i]);
       if (ths[i]->st != ST_DONE) all_done = false;
     }
     std::vector<Th*> en(en1);
     en.insert(en.end(), en2.begin(), en2.end());
     if (en.empty()) { outcome = all_done ? "done" : "deadlock"; finish(); }
+    if (en1.empty() && g_ss) {
+      // the loop thread sleeps in select() with an empty wake-up pipe although callbacks are queued
+      for (size_t i = 0; i < en2.size(); i++)
+        if (en2[i]->op == OP_POLL && !g_ss->m_incoming_callbacks.empty()) { outcome = "lost-wakeup"; finish(); }
+    }
     Th *t = en[c % en.size()];
     unsigned pick = c / en.size();
     if (c >= 500) {
@@ -128,6 +162,14 @@ static void dispatch() {
       if (!t) t = en1.empty() ? en2[0] : en1[(c - 500) % en1.size()];
     }
     last_run = t->id;
+    if (t->st == ST_PARKED && t->op == OP_POLL) {
+      bool ready = poll_ready(t->nfds, t->rf, t->wf);
+      ev(vh::str(t->id) + (ready ? "P" : "PT"));
+      t->timedout = !ready;
+      t->op = OP_NONE;
+      sem_post(&t->sem);
+      return;
+    }
     if (t->st == ST_ASLEEP) {     // time-out of a timed wait
       std::deque<int> &q = wq[t->a];
       for (std::deque<int>::iterator it = q.begin(); it != q.end(); ++it)
@@ -275,6 +317,19 @@ int __wrap_pthread_cond_timedwait(pthread_cond_t *c, pthread_mutex_t *m, const s
   sch::park(sch::OP_TWAIT, c, m);   // returns after wake-up or (schedule-driven) time-out + re-acquisition
   return sch::self->timedout ? ETIMEDOUT : 0;
 }
+int __wrap_select(int n, fd_set *r, fd_set *w, fd_set *e, struct timeval *tv) {
+  if (!sch::active || !sch::self) return __real_select(n, r, w, e, tv);
+  sch::self->nfds = n; sch::self->rf = r; sch::self->wf = w;
+  sch::park(sch::OP_POLL, NULL, NULL);
+  if (sch::self->timedout) {      // schedule-driven time-out
+    if (r) FD_ZERO(r);
+    if (w) FD_ZERO(w);
+    if (e) FD_ZERO(e);
+    return 0;
+  }
+  struct timeval zero = {0, 0};
+  return __real_select(n, r, w, e, &zero);
+}
 int __wrap_pthread_cond_signal(pthread_cond_t *c) {
   if (!sch::active || !sch::self) return __real_pthread_cond_signal(c);
   sch::park(sch::OP_SIGNAL, c, NULL);
@@ -384,6 +439,14 @@ static void scen_futcopy(int g) {
   for (int i = 0; i < 1 + g; i++) pthread_join(tids[i], NULL);
 }
 
+// ---- ThreadPool with two workers
+static void scen_pool(int n) {
+  ola::thread::ThreadPool pool(2);
+  pool.Init();
+  for (int i = 0; i < n; i++) pool.Execute(ola::NewSingleCallback(record, 0, i));
+  pool.JoinAll();
+}
+
 // ---- PeriodicThread: constructor starts the thread, Stop() terminates and joins it
 static bool per_cb() { out(2, 0); return true; }
 static void scen_periodic() {
@@ -446,12 +509,14 @@ static void scen_ss(const std::vector<int> &lims, const std::vector<int> &rs, in
     ola::io::SelectServer::Options opt;
     opt.force_select = true;
     ola::io::SelectServer ss(opt);
+    sch::g_ss = &ss;
     for (size_t i = 0; i < lims.size(); i++) {
       args[i].ss = &ss; args[i].n = lims[i]; args[i].re = i < rs.size() ? rs[i] : 0;
       pthread_create(&tids[i], NULL, ss_producer, &args[i]);
     }
-    for (int j = 0; j < k; j++) ss.RunOnce();
+    for (int j = 0; j < k; j++) ss.RunOnce(ola::TimeInterval(3600, 0));
     for (size_t i = 0; i < lims.size(); i++) pthread_join(tids[i], NULL);
+    sch::g_ss = NULL;
   }  // ~SelectServer: DrainCallbacks
 }
 
@@ -474,6 +539,7 @@ static void child(const std::vector<std::string> &a) {
   else if (a[0] == "futraw") scen_futraw();
   else if (a[0] == "futcopy") scen_futcopy(atoi(a[1].c_str()));
   else if (a[0] == "periodic") scen_periodic();
+  else if (a[0] == "pool") scen_pool(atoi(a[1].c_str()));
   else if (a[0] == "execre") scen_execre(ints(a[1]), ints(a[2]));
   else if (a[0] == "ss") scen_ss(ints(a[1]), ints(a[2]), atoi(a[3].c_str()));
   m->st = sch::ST_DONE;
@@ -486,7 +552,8 @@ static std::string handle(const std::string &p) {
   std::vector<std::string> a = vh::split(p);
   if (!(a[0] == "exec" && a.size() == 3) && !(a[0] == "futraw" && a.size() == 2) &&
       !(a[0] == "futcopy" && a.size() == 3) && !(a[0] == "ss" && a.size() == 5) &&
-      !(a[0] == "execre" && a.size() == 4) && !(a[0] == "periodic" && a.size() == 2))
+      !(a[0] == "execre" && a.size() == 4) && !(a[0] == "periodic" && a.size() == 2) &&
+      !(a[0] == "pool" && a.size() == 3))
     return "bad-op";
   int fds[2];
   if (pipe(fds)) return "end=pipe-failed";
